@@ -343,3 +343,18 @@ Definition array_validate {A} (prev v : list A) : list A :=
   | [] => v
   | _ => map fst (combine v (map Some prev ++ repeat None (length v - length prev)))
   end.
+
+(* The node validates a written struct against the previous value of the parameter too
+   (StructOf.validate: result = dict(previous or {}); for key, val in value.items(): result[key] = validated member):
+   the members given replace, the others keep their value.  A struct is a python dict: member id -> value id, in
+   insertion order (replace in place, new keys at the end).  Which members may be left out is decided by the two
+   datatype objects (client: the one rebuilt from the description); that decision enters with the conversion tables. *)
+Fixpoint struct_set (k v : nat) (l : list (nat * nat)) : list (nat * nat) :=
+  match l with
+  | [] => [(k, v)]
+  | (k', v') :: r => if Nat.eqb k k' then (k, v) :: r else (k', v') :: struct_set k v r
+  end.
+Fixpoint struct_get (k : nat) (l : list (nat * nat)) : option nat :=
+  match l with [] => None | (k', v) :: r => if Nat.eqb k k' then Some v else struct_get k r end.
+Definition struct_validate (prev v : list (nat * nat)) : list (nat * nat) :=
+  fold_left (fun acc kv => struct_set (fst kv) (snd kv) acc) v prev.
